@@ -410,9 +410,9 @@ def run():
 
     def classify(case):
         # C10-F2: the model itself predicts the passthrough, and since a131b2a that is only the bare name `that` outside a
-        # join condition (Props/C10.v passthrough_only_bare_that); interpolated relation names are spliced by design and
-        # never reach this classifier
-        if case.get("model_kind") == "OPassthrough" and case.get("impl") == "ok" and case.get("name") == "that" and not case.get("interp"):
+        # join condition (Props/C10.v passthrough_only_bare_that), as an expression or as an interpolated item of an s-string;
+        # interpolated RELATION names are spliced by design and never reach this classifier
+        if case.get("model_kind") == "OPassthrough" and case.get("impl") == "ok" and case.get("name") == "that":
             return F2
         return None
 
@@ -491,7 +491,7 @@ def run():
                 ck.violation("the implementation bound `%s` to %s, the model resolves it to %s" % (c["ref"], bc, exp), rep)
             continue
         # an interpolated item of an s-string that names a relation variable: spliced in by design (the model says so)
-        if c.get("interp") and mk == "OPassthrough":
+        if c.get("interp") and mk == "OPassthrough" and c.get("what") in ("let-table", "database-table"):
             ck.stat(st, "interpolated-relation-name:" + c["impl"])
             if c["impl"] != "ok":
                 ck.violation("a relation name interpolated into an s-string should be spliced in (model: OPassthrough), got %s" % c["impl"], dict(rep, answer=str(a)[:300]))
